@@ -32,22 +32,22 @@ impl Prop for P {
                 let sops: Vec<Op> = seq.iter().map(|k| Op::Add(k.clone())).collect();
                 if l == maxlen && tier != Tier::Thorough && rng.below(3) != 0 {
                     // sample the largest layer in the quick tier, raw builder only
-                    cases.push(build_case("calls", "raw", 0, 10_000, 2, &mops));
-                    cases.push(build_case("calls", "raw", 0, 10_000, 2, &sops));
+                    cases.push(build_case("calls", "raw", 0, drows(), dcols(), &mops));
+                    cases.push(build_case("calls", "raw", 0, drows(), dcols(), &sops));
                     continue;
                 }
                 for fe in ["raw", "map"] {
-                    cases.push(build_case("calls", fe, 0, 10_000, 2, &mops));
+                    cases.push(build_case("calls", fe, 0, drows(), dcols(), &mops));
                 }
                 for fe in ["raw", "set"] {
-                    cases.push(build_case("calls", fe, 0, 10_000, 2, &sops));
+                    cases.push(build_case("calls", fe, 0, drows(), dcols(), &sops));
                 }
                 if l <= 3 || tier == Tier::Thorough {
                     for (sem, fe) in [("extend", "raw_iter"), ("extend", "raw_stream"), ("extend", "map_iter"), ("extend", "map_stream"), ("fromiter", "map"), ("fromiter", "raw_map")] {
-                        cases.push(build_case(sem, fe, 0, 10_000, 2, &mops));
+                        cases.push(build_case(sem, fe, 0, drows(), dcols(), &mops));
                     }
                     for (sem, fe) in [("extend", "set_iter"), ("extend", "set_stream"), ("fromiter", "set"), ("fromiter", "raw_set")] {
-                        cases.push(build_case(sem, fe, 0, 10_000, 2, &sops));
+                        cases.push(build_case(sem, fe, 0, drows(), dcols(), &sops));
                     }
                 }
                 stats.bump(&format!("exhaustive_len_{}", l));
@@ -57,7 +57,7 @@ impl Prop for P {
         for seq in all_sequences(&uni[..4], 3) {
             for mask in 0..8u32 {
                 let ops: Vec<Op> = seq.iter().enumerate().map(|(i, k)| if mask >> i & 1 == 1 { Op::Insert(k.clone(), 5 + i as u64) } else { Op::Add(k.clone()) }).collect();
-                cases.push(build_case("calls", "raw", 0, 10_000, 2, &ops));
+                cases.push(build_case("calls", "raw", 0, drows(), dcols(), &ops));
             }
             stats.bump("mixed_add_insert_len_3");
         }
@@ -86,7 +86,7 @@ impl Prop for P {
                 &[("calls", "raw"), ("calls", "map"), ("extend", "map_iter"), ("extend", "raw_stream"), ("fromiter", "map")]
             };
             let (sem, fe) = *rng.pick(fes);
-            cases.push(build_case(sem, fe, 0, 10_000, 2, &ops));
+            cases.push(build_case(sem, fe, 0, drows(), dcols(), &ops));
             stats.bump(&format!("random_errrate_{}0s", err_pct / 10));
         }
         cases
